@@ -361,6 +361,8 @@ func (w *Writer) Append(entries []types.LogEntry) error {
 		}
 	}
 
+	verifPoint("Append.buffered")
+
 	// Write the commit frame
 	if err := w.appendCommit(); err != nil {
 		return err
@@ -383,6 +385,7 @@ func (w *Writer) OffsetForFrame(idx uint64) (uint32, error) {
 	if idx < w.info.BaseIndex || idx < w.info.MinIndex || idx > w.LastIndex() {
 		return 0, types.ErrNotFound
 	}
+	verifPoint("OffsetForFrame.checked")
 	os := w.getOffsets()
 	entryIndex := idx - w.info.BaseIndex
 	// No bounds check on entryIndex since LastIndex must ensure it's in bounds.
@@ -531,6 +534,7 @@ func (w *Writer) sync() error {
 	if err := w.wf.Sync(); err != nil {
 		return err
 	}
+	verifPoint("sync.durable")
 
 	// Update commitIdx atomically
 	offsets := w.getOffsets()
